@@ -373,8 +373,13 @@ namespace c10
     }
     AdaptMode mode = AdaptMode::none; bool geometry = true;
     if(gi.file_unmodified && gi.src == "file" && t.flag(1, 3)) { mode = AdaptMode::chart; geometry = false; }
-    c.desc.set("depth", depth); c.desc.set("adapt", mode == AdaptMode::chart ? "chart" : "none");
-    c.label("depth:" + std::to_string(depth)); c.label(mode == AdaptMode::chart ? "adapt:chart" : "adapt:none");
+    // AdaptMode::dual re-computes every cell-midpoint vertex of a hypercube mesh as the mean of the facet midpoints of the parent
+    // cell - which IS the vertex mean (each vertex lies in dim of the 2*dim facets), so without charts the result must be the
+    // plain refinement and all geometric claims stay in force
+    const bool dual = (mode == AdaptMode::none) && t.flag(1, 3);
+    if(dual) mode = AdaptMode::dual;
+    c.desc.set("depth", depth); c.desc.set("adapt", mode == AdaptMode::chart ? "chart" : (dual ? "dual" : "none"));
+    c.label("depth:" + std::to_string(depth)); c.label(mode == AdaptMode::chart ? "adapt:chart" : (dual ? "adapt:dual" : "adapt:none"));
     // which geometric claims this case can carry (run_levels applies the same rule)
     { c.label(!geometry ? "geom:topology-only" : (orientation_margin_ok(base, depth, 1e-9L) ? "geom:volume+orientation" : "geom:volume-only")); }
     c.nontrivial = nontrivial || nparts > 0;
